@@ -1958,50 +1958,136 @@ func (k *c13k) r4() {
 		c.Ok(rule, hg+"#bestmove-every-path", goCall.Pos(), "every path from Search.Go to the exits of handleGo passes a bestmove print (%d sites, mutually exclusive)", len(events))
 	}
 	c.Floor(rule+".bestmove", len(k.printsWith("bestmove")), 1, "bestmove print sites (2 on the pinned tree)")
-	// readyok: idle handler and interrupt goroutine, each under an isready test, once per line
+	// readyok: idle handler and interrupt goroutine, each under an isready test, once per line.
+	// A responder may sit in a helper (also one shared by both sides, also called through a method
+	// value): the answering *event* is then the helper's call site, followed up to the isready test.
+	underIsready := func(blk *ssa.BasicBlock) bool {
+		for _, ce := range controllingConds(blk) {
+			if b, ok := ce.Cond.(*ssa.BinOp); ok && b.Op == token.EQL && ce.True {
+				sx, okx := c13ConstStr(b.X)
+				sy, oky := c13ConstStr(b.Y)
+				if (okx && sx == "isready") || (oky && sy == "isready") {
+					return true
+				}
+			}
+		}
+		return false
+	}
+	closuresOf := func(fn *ssa.Function) []*ssa.MakeClosure {
+		var out []*ssa.MakeClosure
+		for _, g := range k.scope {
+			allInstrs(g, func(in ssa.Instruction) {
+				if mc, ok := in.(*ssa.MakeClosure); ok && mc.Fn == ssa.Value(fn) {
+					out = append(out, mc)
+				}
+			})
+		}
+		return out
+	}
+	// expand: the guarded sites through which `site` answers; unguarded: recognised sites in the command
+	// handler / interrupt goroutine without the test; unresolved: the rule lost track.
+	var expand func(site ssa.Instruction, depth int) (guarded, unguarded []ssa.Instruction, unresolved bool)
+	expand = func(site ssa.Instruction, depth int) (guarded, unguarded []ssa.Instruction, unresolved bool) {
+		if underIsready(site.Block()) {
+			return []ssa.Instruction{site}, nil, false
+		}
+		fn := site.Parent()
+		if fn == k.hCmd || fn == k.intr.child {
+			return nil, []ssa.Instruction{site}, false
+		}
+		mcs := closuresOf(fn)
+		if depth == 0 || (len(k.callers[fn]) == 0 && len(mcs) == 0) || (k.valueUse[fn] && len(mcs) == 0) {
+			return nil, nil, true
+		}
+		var next []ssa.Instruction
+		for _, ci := range k.callers[fn] {
+			next = append(next, ci.(ssa.Instruction))
+		}
+		for _, mc := range mcs {
+			for _, r := range *mc.Referrers() {
+				if _, dbg := r.(*ssa.DebugRef); dbg {
+					continue
+				}
+				if ci, ok := r.(ssa.CallInstruction); ok && ci.Common().Value == ssa.Value(mc) {
+					next = append(next, r)
+				} else {
+					unresolved = true // the function value travels (stored, passed on)
+				}
+			}
+		}
+		for _, n := range next {
+			g, u, x := expand(n, depth-1)
+			guarded, unguarded, unresolved = append(guarded, g...), append(unguarded, u...), unresolved || x
+		}
+		return
+	}
+	// who runs what: static call trees (incl. directly called closures / method values)
+	callTree := func(root *ssa.Function) (map[*ssa.Function]bool, bool) {
+		tree, dynamic := map[*ssa.Function]bool{root: true}, false
+		for front, d := []*ssa.Function{root}, 0; len(front) > 0 && d < 5; d++ {
+			var nxt []*ssa.Function
+			for _, f := range front {
+				allInstrs(f, func(in ssa.Instruction) {
+					ci, ok := in.(ssa.CallInstruction)
+					if !ok {
+						return
+					}
+					var g *ssa.Function
+					if mc, isMC := ci.Common().Value.(*ssa.MakeClosure); isMC {
+						g, _ = mc.Fn.(*ssa.Function)
+					} else if g = ci.Common().StaticCallee(); g == nil {
+						if _, isB := ci.Common().Value.(*ssa.Builtin); !isB {
+							dynamic = true
+						}
+						return
+					}
+					if g != nil && isOwn(g) && g.Blocks != nil && !tree[g] {
+						tree[g] = true
+						nxt = append(nxt, g)
+					}
+				})
+			}
+			front = nxt
+		}
+		return tree, dynamic
+	}
+	busyTree, busyDyn := callTree(k.intr.child)
+	idleTree, _ := callTree(k.hCmd)
+	recvLine := func(in ssa.Instruction) bool {
+		if il := k.role["inputLines"]; il != nil {
+			for _, r := range il.recvs {
+				if r == in {
+					return true
+				}
+			}
+		}
+		return false
+	}
 	idle, busy := 0, 0
 	for i, pr := range k.printsWith("readyok") {
 		key := fmt.Sprintf("readyok%d@%s", i+1, fnName(pr.fn))
-		underIsready := func(blk *ssa.BasicBlock) bool {
-			for _, ce := range controllingConds(blk) {
-				if b, ok := ce.Cond.(*ssa.BinOp); ok && b.Op == token.EQL && ce.True {
-					sx, okx := c13ConstStr(b.X)
-					sy, oky := c13ConstStr(b.Y)
-					if (okx && sx == "isready") || (oky && sy == "isready") {
-						return true
-					}
-				}
+		guarded, unguarded, unresolved := expand(pr.call.(ssa.Instruction), 4)
+		repeats := false
+		for _, ev := range guarded {
+			if c13After(ev, c13Is(ev), recvLine) {
+				repeats = true
 			}
-			return false
-		}
-		guarded := underIsready(pr.call.Block())
-		if !guarded && !k.valueUse[pr.fn] && len(k.callers[pr.fn]) > 0 && pr.fn != k.hCmd {
-			// a helper: the test may sit at its call sites
-			guarded = true
-			for _, ci := range k.callers[pr.fn] {
-				guarded = guarded && underIsready(ci.Block())
-			}
-		}
-		recvLine := func(in ssa.Instruction) bool {
-			if il := k.role["inputLines"]; il != nil {
-				for _, r := range il.recvs {
-					if r == in {
-						return true
-					}
-				}
-			}
-			return false
 		}
 		switch {
-		case !guarded:
-			c.Fail(rule, key, pr.call.Pos(), "readyok is printed in %s outside an `== \"isready\"` test of the command word: an answer without a request", fnName(pr.fn))
-		case c13After(pr.call.(ssa.Instruction), c13Is(pr.call.(ssa.Instruction)), recvLine):
-			c.Fail(rule, key, pr.call.Pos(), "readyok print in %s can repeat without consuming another input line", fnName(pr.fn))
+		case len(unguarded) > 0:
+			c.Fail(rule, key, unguarded[0].Pos(), "readyok (printed in %s) is reached in %s outside an `== \"isready\"` test of the command word: an answer without a request", fnName(pr.fn), fnName(unguarded[0].Parent()))
+		case unresolved:
+			c.Undec(rule, key, pr.call.Pos(), "readyok is printed in %s; the rule cannot follow all its callers up to an isready test (function value travels, or helper nesting too deep)", fnName(pr.fn))
+		case repeats:
+			c.Fail(rule, key, pr.call.Pos(), "the readyok answer (printed in %s) can repeat without consuming another input line", fnName(pr.fn))
 		default:
-			c.Ok(rule, key, pr.call.Pos(), "readyok in %s is printed under the isready test, once per consumed line", fnName(pr.fn))
-			if pr.fn == k.intr.child {
+			c.Ok(rule, key, pr.call.Pos(), "readyok in %s is reached only under the isready test (%d site(s)), once per consumed line", fnName(pr.fn), len(guarded))
+		}
+		for _, ev := range guarded { // responders exist whatever else is wrong with this print
+			if busyTree[ev.Parent()] {
 				busy++
-			} else if !k.isSpawnChild(pr.fn) {
+			}
+			if idleTree[ev.Parent()] {
 				idle++
 			}
 		}
@@ -2011,9 +2097,18 @@ func (k *c13k) r4() {
 	} else {
 		c.Check(idle >= 1, rule, "readyok#idle", k.hCmd.Pos(), "isready must be answered with readyok by the idle command handler (%d sites)", idle)
 	}
-	if op := k.opaquePrint(k.intr.child, nil); busy == 0 && op != nil {
-		c.Undec(rule, "readyok#searching", op.call.Pos(), "no recognisable readyok print in the interrupt goroutine, but it prints text the rule cannot read (%s)", op.key)
-	} else {
+	var opBusy *c13Print
+	for f := range busyTree {
+		if op := k.opaquePrint(f, nil); op != nil {
+			opBusy = op
+		}
+	}
+	switch {
+	case busy == 0 && opBusy != nil:
+		c.Undec(rule, "readyok#searching", opBusy.call.Pos(), "no recognisable readyok print in the interrupt goroutine, but it prints text the rule cannot read (%s)", opBusy.key)
+	case busy == 0 && busyDyn:
+		c.Undec(rule, "readyok#searching", k.intr.site.Pos(), "no recognisable readyok answer in the interrupt goroutine, but it makes dynamic calls the rule does not follow")
+	default:
 		c.Check(busy >= 1, rule, "readyok#searching", k.intr.site.Pos(), "isready must be answered with readyok by the interrupt goroutine, which consumes the input lines while a search runs (%d sites): otherwise the line is swallowed and never answered", busy)
 	}
 }
